@@ -393,6 +393,7 @@ func writeEvidence(prop, tier string, seed int, def CheckDef, results []*JobResu
 	var states, transitions, obligations, discharged, incon int64
 	var solverMs, solverMax float64
 	var solverQ, secondQ, disagree int
+	var assertStates, assertSym int64
 	funcs := map[string]int{}
 	var samples []interface{}
 	var jobsum []interface{}
@@ -419,6 +420,8 @@ func writeEvidence(prop, tier string, seed int, def CheckDef, results []*JobResu
 		as := map[string]interface{}{}
 		for k, v := range r.Asserts {
 			as[k] = map[string]int{"states": v.States, "symbolic_condition": v.Symbolic}
+			assertStates += int64(v.States)
+			assertSym += int64(v.Symbolic)
 		}
 		jobsum = append(jobsum, map[string]interface{}{"job": r.Spec.String(), "status": r.Status, "merged_states": r.Stats.States, "forks": r.Stats.Forks,
 			"merges": r.Stats.MergedItems, "paths_pruned": r.Stats.Pruned, "assertions": as, "obligations": r.Obligations, "solver_queries": r.SolverQ,
@@ -471,6 +474,7 @@ func writeEvidence(prop, tier string, seed int, def CheckDef, results []*JobResu
 			"solver":                            map[string]interface{}{"name": "z3 5.1.0 (z3-new -in, push/pop)", "queries": solverQ, "total_ms": int(solverMs), "max_ms": int(solverMax)},
 			"jobs":                              jobsum,
 			"encoder_mismatches":                mismatch,
+			"assertion_evaluations":             map[string]interface{}{"merged_states_reaching_an_assertion": assertStates, "with_symbolic_condition_sent_to_solver": assertSym, "note": "a state whose assertion condition is concretely true needs no solver query: the state stands for every input of its exact path condition; concretely false or symbolic conditions become solver obligations"},
 			"second_solver":                     map[string]interface{}{"name": "z3 4.8.12 (thorough tier: every final obligation re-decided)", "queries": secondQ, "disagreements": disagree},
 			"known_findings_hit":                kh,
 			"package_level_stores_outside_init": gs,
